@@ -69,21 +69,37 @@ def run(cmd, cwd=None, timeout=1800):
         return 124, f"TIMEOUT after {timeout}s: {cmd}\n{e.stdout or ''}"
 
 
-def make(targets: list[str], timeout=2400):
-    """(Re)generate the Makefile if needed and build the given .vo targets under a lock."""
+def build(files: list[str], timeout=1800):
+    """Compile the given .v files (paths relative to coq/, in dependency order) when their
+    .vo is missing or older than the source or than an earlier file of the list.  Each coqc
+    call runs under a per-directory lock so that concurrent checks do not collide."""
     os.makedirs(BUILD, exist_ok=True)
-    rc, out = run(["bash", os.path.join(VERIF, "setup.sh"), "--no-build"], timeout=300)
-    if rc != 0:
-        return rc, out
-    cmd = ["flock", os.path.join(BUILD, ".coq.lock"), "timeout", str(timeout), "make", "-C", COQ, "-j8"] + targets
-    return run(cmd, timeout=timeout + 60)
+    files = ["Base/Prelude.v"] + [f for f in files if f != "Base/Prelude.v"]
+    newest_dep = 0.0
+    log = []
+    for f in files:
+        src = os.path.join(COQ, f)
+        vo = src + "o"
+        lock = os.path.join(BUILD, "." + os.path.dirname(f).replace("/", "_") + ".lock")
+        import fcntl
+        with open(lock, "w") as lk:
+            fcntl.flock(lk, fcntl.LOCK_EX)
+            stale = (not os.path.exists(vo)) or os.path.getmtime(vo) < os.path.getmtime(src) or os.path.getmtime(vo) < newest_dep
+            if stale:
+                rc, out = run(["coqc", "-R", ".", "HS", f], cwd=COQ, timeout=timeout)
+                log.append(f"coqc {f}: rc={rc}")
+                if rc != 0:
+                    return rc, "\n".join(log) + "\n" + out
+        newest_dep = max(newest_dep, os.path.getmtime(vo))
+    return 0, "\n".join(log)
 
 
-def obligations(props_v: str, allowed_axioms: set[str], timeout=900):
+def obligations(files: list[str], allowed_axioms: set[str], timeout=1800):
     """Recompile the property file, count theorems and read Print Assumptions.
 
     Returns dict(obligations, discharged, theorems, axioms, errors, checker_cmd).
     """
+    props_v = files[-1]
     vo = props_v + "o"
     src = open(os.path.join(COQ, props_v)).read()
     theorems = re.findall(r"^\s*Theorem\s+([A-Za-z0-9_']+)", strip_comments(src), flags=re.M)
@@ -92,11 +108,11 @@ def obligations(props_v: str, allowed_axioms: set[str], timeout=900):
     missing = [t for t in theorems if t not in printed]
     if missing:
         errors.append(f"theorems without Print Assumptions: {missing}")
-    rc, out = make([vo], timeout=timeout)
+    rc, out = build(files, timeout=timeout)
     if rc != 0:
         errors.append("build failed: " + out[-3000:])
         return dict(obligations=len(theorems), discharged=0, theorems=theorems, axioms={}, errors=errors,
-                    checker_cmd=f"make -C coq {vo}")
+                    checker_cmd=f"coqc -R . HS {' '.join(files)}")
     # Re-run coqc on the property file alone to capture Print Assumptions output.
     tmpd = os.path.join(BUILD, f"props_{os.getpid()}")
     os.makedirs(tmpd, exist_ok=True)
@@ -126,7 +142,7 @@ def obligations(props_v: str, allowed_axioms: set[str], timeout=900):
                     errors.append(f"{name} depends on non-allow-listed axiom {n}")
     discharged = len(theorems) if not errors else 0
     return dict(obligations=len(theorems), discharged=discharged, theorems=theorems, axioms=axioms, errors=errors,
-                checker_cmd=f"make -C coq {vo} && coqc -R . HS {props_v}  (Print Assumptions under every theorem)")
+                checker_cmd=f"cd coq && for f in {' '.join(files)}; do coqc -R . HS $f; done  (stale files only; {props_v} always, Print Assumptions under every theorem)")
 
 
 # ---------------------------------------------------------------------------
